@@ -621,6 +621,28 @@ def execute(scn, prefix=(), base_order='fifo', keep_world=False):
         p.user['spec'] = f
         p.user['evt']  = evt
 
+        if lin and f.get('lineage', True) and (pump := lin.get('pump')):
+            # the telemetry side: a periodic metrics export (the OTel reader thread -> OTelLineageExporter.export ->
+            # update_heartbeat_lineage) that goes on for a while after the run has ended (reader outliving the run, flush at shutdown)
+            emitter = cls.emitter
+
+            def pump_body():
+                k = 0
+
+                while True:
+                    w.sleep(pump['every_ms'] / 1000)
+
+                    ended = any(e['ev'] == 'end' and e['f'] == name for e in w.log)
+                    k     = k + 1 if ended else 0
+
+                    if k > pump.get('after_end', 2):
+                        return
+
+                    w.park({'kind': 'yield'})
+                    emitter.update_heartbeat_lineage(facets=dict(pump['facets']))
+
+            w.spawn(f'{name}.metrics', pump_body, incarnation)
+
         return p
 
     w.start_filter = start_filter
